@@ -288,6 +288,9 @@ TimeoutFire ==
 (* _retry_task (executor) *)
 RetryTask ==
     /\ queue # <<>>
+    \* scope of the "one" abstraction (every attempt carries stream id 0): a task that runs inside the interrupted
+    \* callback borrows before process_msg has recycled that id, so it is explored with the other id spaces only
+    /\ (pend.host # 0 => ids # "one")
     /\ LET t  == Head(queue)
            s1 == [S EXCEPT !.queue = Tail(@)] IN
        IF IsErr(final) THEN Set(s1)
